@@ -2,7 +2,7 @@
    Model: Model/AP.v (hand-written mirror of ap.py / map.py / is_result_correct), tied to the code by
    the correspondence in harness/props/C04.py.  Statements only; proofs are in Proofs/AP*.v. *)
 From Coq Require Import List Bool ZArith Permutation.
-From PE Require Import Base.QUtil Model.AP Proofs.APEnvelope Proofs.APRanking Proofs.APKinds Proofs.APModel.
+From PE Require Import Base.QUtil Model.AP Proofs.APEnvelope Proofs.APRanking Proofs.APKinds Proofs.APModel Proofs.APDecl.
 Import ListNotations.
 Open Scope Q_scope.
 
@@ -51,6 +51,14 @@ Print Assumptions C04_ap_is_interpolated_area.
 Theorem C04_envelope_area_eq_all_point_interpolation : forall l : list pt, ap_code l == ap_spec l.
 Proof. exact ap_code_eq_spec. Qed.
 Print Assumptions C04_envelope_area_eq_all_point_interpolation.
+
+(* ... and that specification is the explicit formula, in rank order (l = points of ranks 0, 1, ...):
+     AP = sum_i (r_i - r_{i-1}) * max_{j >= i} p_j      with r_{-1} = 0
+   ([ap_decl], Model/AP.v), for any non-negative precisions *)
+Theorem C04_area_is_explicit_all_point_formula : forall l : list pt,
+  (forall p r, In (p, r) l -> 0 <= p) -> ap_code (rev l) == ap_decl 0 l.
+Proof. intros l H. rewrite ap_code_eq_spec. now apply ap_spec_rev_decl. Qed.
+Print Assumptions C04_area_is_explicit_all_point_formula.
 
 Theorem C04_empty_results_undefined : forall m n, ap (ap_model m n []) = None.
 Proof. reflexivity. Qed.
